@@ -40,7 +40,8 @@ def braid_suite(ctx, vh):
     # star family (C19/C04 beyond 10 heads): every replica lacking one sibling must sync
     ladders += [{"star": w} for w in (2, 3, 10, 11, 12, 40, 130)]
     if ctx.thorough:
-        ladders += [{"rungs": r, "side": s, "side_mode": m} for r in (769, 1025, 1500, 2500) for s in (2, 3, 40) for m in (0, 1, 2)]
+        ladders += [{"rungs": r, "side": s, "side_mode": m} for r in (769, 1025, 1500) for s in (2, 40) for m in (0, 1, 2)]
+        ladders += [{"rungs": 2500, "side": 3, "side_mode": m} for m in (0, 1, 2)]
         ladders += [{"fan": f} for f in (513, 1100)]
     out += ctx.run_engine(vh, "braid", ladders, opts={"faults": 1}, tag="ladder", timeout=1800)
     ctx.cov["ladder_cases"] = ladders
@@ -49,7 +50,7 @@ def braid_suite(ctx, vh):
         ctx.cov["braid_cases"]["N5_sampled"] = len(n5.replays)
         out += ctx.run_engine(vh, "braid", n5.replays, opts={"twin": 1, "index": 1}, tag="braid-n5", timeout=3000)
         # deep STRETCH: > 256 braided commands (BraidResult spill), > 100-command segments
-        deep = verif.sample(ctx.rng, n4.replays, 150)
+        deep = verif.sample(ctx.rng, n4.replays, 60)
         out += ctx.run_engine(vh, "braid", deep, opts={"twin": 1, "index": 1, "stretch": 300}, tag="braid-deep", timeout=3000)
     # binding self-test: a perturbed expectation must be rejected
     victim = next((c for c in n4.replays if len(c["seq"]) >= 3 and not c["err"]), None)
